@@ -43,7 +43,10 @@ Tok ==   \* token -> value
     t_1a1 |-> V("tuple", NoNum, "T"), t_12 |-> V("tuple", NoNum, "T"), l_1a |-> V("list", NoNum, "L"),
     fn |-> V("function", NoNum, ""), cA |-> V("class", NoNum, "A"), cB |-> V("class", NoNum, "B"),
     cC |-> V("class", NoNum, "C"), oA |-> V("inst", NoNum, "A"), oB |-> V("inst", NoNum, "B"),
-    oC |-> V("inst", NoNum, "C"), mod |-> V("module", NoNum, ""), obj |-> V("object", NoNum, "") ]
+    oC |-> V("inst", NoNum, "C"), mod |-> V("module", NoNum, ""), obj |-> V("object", NoNum, ""),
+    \* values whose __class__ differs from their type: a weakref.proxy of an A instance (isinstance(v, A) holds, type(v)
+    \* is the proxy type); an object whose __class__ attribute says str
+    pxA |-> V("proxy", NoNum, "A"), lieS |-> V("liar", NoNum, "str") ]
 Tokens == DOMAIN Tok
 \* items of the sequence-valued tokens
 Items(t) == CASE t = "t_" -> <<>> [] t = "t_1a" -> <<"i1", "s_a">> [] t = "t_2h5" -> <<"f2h", "s_5">>
@@ -128,7 +131,9 @@ Truthy(t) == CASE Tok[t].num # NoNum -> Tok[t].num \notin {0, NegZero}
 CastBool(t) == IF Ty(t) = "bool" THEN Same(t) ELSE Store(V("bool", IF Truthy(t) THEN 2 ELSE 0, ""))
 
 \* ---- classes: B is a subclass of A, C is unrelated
-IsInstanceOf(t, k) == Ty(t) = "inst" /\ (Tok[t].s = k \/ (k = "A" /\ Tok[t].s = "B"))
+\* isinstance(v, k) honours v.__class__ (so does PyObject_IsInstance); PyObject_TypeCheck looks at the real type only
+IsInstanceOf(t, k) == Ty(t) \in {"inst", "proxy"} /\ (Tok[t].s = k \/ (k = "A" /\ Tok[t].s = "B"))
+SaysStr(t) == Ty(t) \in {"str", "strsub"} \/ (Ty(t) = "liar" /\ Tok[t].s = "str")       \* isinstance(v, str)
 IsSubclassOf(t, k) == Ty(t) = "class" /\ (Tok[t].s = k \/ (k = "A" /\ Tok[t].s = "B"))
 IsCallable(t) == Ty(t) \in {"function", "class"}
 
@@ -210,7 +215,7 @@ Py(cfg, t) ==
     [] cfg.t = "Int" -> ValidateInt(t)
     [] cfg.t = "Float" -> ValidateFloat(t)
     [] cfg.t = "Complex" -> ValidateComplex(t)
-    [] cfg.t = "Str" -> IF Ty(t) \in {"str", "strsub"} THEN Same(t) ELSE Reject
+    [] cfg.t = "Str" -> IF SaysStr(t) THEN Same(t) ELSE Reject                 \* BaseStr.validate: isinstance(value, str)
     [] cfg.t = "Bytes" -> IF Ty(t) = "bytes" THEN Same(t) ELSE Reject
     [] cfg.t = "Bool" -> IF Ty(t) = "bool" THEN Same(t)
                          ELSE IF Ty(t) = "npbool" THEN Store(V("bool", Tok[t].num, "")) ELSE Reject
@@ -226,7 +231,7 @@ Py(cfg, t) ==
                            ELSE IF r.w.num = Huge /\ cfg.hi = None9 THEN r ELSE Reject
     [] cfg.t = "Enum" -> IF \E m \in cfg.vals : EqTok(t, m) THEN Same(t) ELSE Reject
     \* TraitCoerceType.validate: an instance of the type as it is, an instance of a coercible type converted
-    [] cfg.t = "TCoerce" -> IF Ty(t) \in SubOf(cfg.k) THEN Same(t)
+    [] cfg.t = "TCoerce" -> IF Ty(t) \in SubOf(cfg.k) \/ (cfg.k = "str" /\ SaysStr(t)) THEN Same(t)
                             ELSE IF Ty(t) \in CoerceFrom(cfg.k) THEN CoerceConv(CastTo(cfg.k, t)) ELSE Reject
     \* TraitCastType.validate: the exact type as it is, else type(value) with every exception -> TraitError
     [] cfg.t = "TCast" -> IF Ty(t) = cfg.k THEN Same(t) ELSE FastCast(CastTo(cfg.k, t))
@@ -236,6 +241,12 @@ Py(cfg, t) ==
     [] cfg.t = "TFunc" -> FuncV(t)
     [] cfg.t = "TEnum" -> IF \E m \in cfg.vals : EqTok(t, m) THEN Same(t) ELSE Reject
     [] cfg.t = "TMap" -> IF \E m \in cfg.vals : EqTok(t, m) /\ Ty(t) \notin {"list"} THEN Same(t) ELSE Reject
+    \* Instance(k, adapt="yes" | "default") (cfg.mn = 1 | 2; also Supports): None by allow_none; adapt(value, k, None)
+    \* - with no offer registered that is the value itself iff isinstance - else TraitError ("yes") or the trait's
+    \* default value, None ("default")
+    [] cfg.t = "InstAd" -> IF Ty(t) = "none" THEN (IF cfg.an THEN Same(t) ELSE Reject)
+                           ELSE IF IsInstanceOf(t, cfg.k) THEN Same(t)
+                           ELSE IF cfg.mn = 1 THEN Reject ELSE Store(V("none", NoNum, ""))
     [] cfg.t = "Instance" -> IF (cfg.an /\ Ty(t) = "none") \/ IsInstanceOf(t, cfg.k) THEN Same(t) ELSE Reject
     [] cfg.t = "Type" -> IF (cfg.an /\ Ty(t) = "none") \/ IsSubclassOf(t, cfg.k) THEN Same(t) ELSE Reject
     \* String: strx, then length and regex; the result is an exact str (num carries its length)
@@ -313,6 +324,10 @@ Fast(cfg, t) ==
     [] cfg.t = "TFunc" -> FuncV(t)
     [] cfg.t = "TEnum" -> IF \E m \in cfg.vals : EqTok(t, m) THEN Same(t) ELSE Reject
     [] cfg.t = "TMap" -> IF \E m \in cfg.vals : EqTok(t, m) /\ Ty(t) \notin {"list"} THEN Same(t) ELSE Reject
+    \* validate_trait_adapt on (adapt, k, mode, allow_none)
+    [] cfg.t = "InstAd" -> IF Ty(t) = "none" THEN (IF cfg.an THEN Same(t) ELSE Reject)
+                           ELSE IF IsInstanceOf(t, cfg.k) THEN Same(t)
+                           ELSE IF cfg.mn = 1 THEN Reject ELSE Store(V("none", NoNum, ""))
     [] cfg.t = "Instance" -> IF (cfg.an /\ Ty(t) = "none") \/ IsInstanceOf(t, cfg.k) THEN Same(t) ELSE Reject
     [] cfg.t = "Type" -> IF (cfg.an /\ Ty(t) = "none") \/ IsSubclassOf(t, cfg.k) THEN Same(t) ELSE Reject
     [] cfg.t = "Callable" -> IF (Ty(t) = "none" /\ cfg.an) \/ IsCallable(t) THEN Same(t) ELSE Reject
@@ -363,7 +378,7 @@ InDomain(cfg, w, members) ==       \* members: stored member values when w is a 
     [] cfg.t \in {"Int", "CInt"} -> w.ty = "int"
     [] cfg.t \in {"Float", "CFloat"} -> w.ty = "float"
     [] cfg.t = "Complex" -> w.ty = "complex"
-    [] cfg.t = "Str" -> w.ty \in {"str", "strsub"}
+    [] cfg.t = "Str" -> w.ty \in {"str", "strsub"} \/ (w.ty = "liar" /\ w.s = "str")        \* isinstance(w, str)
     [] cfg.t = "CStr" -> w.ty = "str"
     [] cfg.t = "Bytes" -> w.ty = "bytes"
     [] cfg.t \in {"Bool", "CBool"} -> w.ty = "bool"
@@ -377,7 +392,9 @@ InDomain(cfg, w, members) ==       \* members: stored member values when w is a 
     [] cfg.t = "Enum" -> \E m \in cfg.vals : w = Tok[m] \/ (w.num # NoNum /\ Tok[m].num # NoNum /\ w.num # NaN
                                                            /\ Ord(w.num) = Ord(Tok[m].num))
                                               \/ (w.ty \in {"str", "strsub"} /\ Tok[m].ty \in {"str", "strsub"} /\ w.s = Tok[m].s)
-    [] cfg.t = "Instance" -> (cfg.an /\ w.ty = "none") \/ (w.ty = "inst" /\ (w.s = cfg.k \/ (cfg.k = "A" /\ w.s = "B")))
+    [] cfg.t = "Instance" -> (cfg.an /\ w.ty = "none") \/ (w.ty \in {"inst", "proxy"} /\ (w.s = cfg.k \/ (cfg.k = "A" /\ w.s = "B")))
+    [] cfg.t = "InstAd" -> ((cfg.an \/ cfg.mn = 2) /\ w.ty = "none")         \* (mode "default": the default value, None)
+                           \/ (w.ty \in {"inst", "proxy"} /\ (w.s = cfg.k \/ (cfg.k = "A" /\ w.s = "B")))
     [] cfg.t = "Type" -> (cfg.an /\ w.ty = "none") \/ (w.ty = "class" /\ (w.s = cfg.k \/ (cfg.k = "A" /\ w.s = "B")))
     [] cfg.t = "Callable" -> (cfg.an /\ w.ty = "none") \/ w.ty \in {"function", "class"}
     [] cfg.t = "Tuple" -> w.ty = "tuple" /\ (cfg.ms = <<>> \/ Len(members) = Len(cfg.ms))
@@ -387,10 +404,10 @@ InDomain(cfg, w, members) ==       \* members: stored member values when w is a 
     [] cfg.t \in {"Map", "PrefixMap", "PrefixList"} -> \E m \in cfg.vals : w = Tok[m] \/ (w.ty = "strsub" /\ w.s = Tok[m].s)
     [] cfg.t = "VTuple" -> w.ty = "tuple" /\ Len(members) = 2 /\ InDomain(cfg.ms[1], members[1], <<>>)
                            /\ InDomain(cfg.ms[2], members[2], <<>>) /\ FLt(members[1].num, members[2].num)
-    [] cfg.t = "TCoerce" -> w.ty \in SubOf(cfg.k)                       \* an instance of the declared Python type
+    [] cfg.t = "TCoerce" -> w.ty \in SubOf(cfg.k) \/ (cfg.k = "str" /\ w.ty = "liar" /\ w.s = "str")                       \* an instance of the declared Python type
     [] cfg.t = "TCast" -> w.ty = cfg.k
     [] cfg.t = "CComplex" -> w.ty = "complex"
-    [] cfg.t = "TInst" -> (cfg.an /\ w.ty = "none") \/ (w.ty = "inst" /\ (w.s = cfg.k \/ (cfg.k = "A" /\ w.s = "B")))
+    [] cfg.t = "TInst" -> (cfg.an /\ w.ty = "none") \/ (w.ty \in {"inst", "proxy"} /\ (w.s = cfg.k \/ (cfg.k = "A" /\ w.s = "B")))
     [] cfg.t = "TFunc" -> w.ty = "int" /\ w.num >= 0
     [] cfg.t = "TEnum" -> \E m \in cfg.vals : w = Tok[m] \/ (w.num # NoNum /\ Tok[m].num # NoNum /\ w.num # NaN
                                                             /\ Ord(w.num) = Ord(Tok[m].num))
